@@ -159,9 +159,9 @@ func runC05(out io.Writer, seed int64, n int, steps int) {
 }
 
 type c10Result struct {
-	ID         int      `json:"id"`
-	Prog       string   `json:"prog"`
-	First      string   `json:"first"` // the first rendering of this value in this process
+	ID    int    `json:"id"`
+	Prog  string `json:"prog"`
+	First string `json:"first"` // the first rendering of this value in this process
 
 	Renders    int      `json:"renders"`
 	Violations []string `json:"violations"`
@@ -186,7 +186,7 @@ func runC10(out io.Writer, seed int64, n int, reps int, reverse bool) {
 		w       builder.SQLWriter
 		rebuild func() builder.SQLWriter // map-based inputs: the same contents in a fresh map (new insertion / iteration order)
 		prog    string
-		ref  obs
+		ref     obs
 	}
 	var items []item
 	for len(items) < n {
@@ -330,6 +330,26 @@ func c11FirstTouch(seed int64) []string {
 		}
 		jsonBases = append(jsonBases, o)
 	}
+	// shared statements whose condition lists hold unset (nil) optional filters between real ones: never rendered before
+	// the goroutines meet them, rendered and continued by all of them at once
+	type nilBase struct {
+		q    builder.SelectBuilder
+		want string
+	}
+	var nilBases []nilBase
+	for r := 0; r < 6; r++ {
+		var q builder.SelectBuilder = qrb.Select(builder.N("x")).From(builder.N("t")).SelectBuilder
+		var parts []string
+		for i := 0; i < 9+r; i++ {
+			if i%3 == 1 {
+				q = q.Where(nil)
+				continue
+			}
+			q = q.Where(builder.N(fmt.Sprintf("f%d", i)).Eq(builder.Int(i)))
+			parts = append(parts, fmt.Sprintf("f%d = %d", i, i))
+		}
+		nilBases = append(nilBases, nilBase{q, "SELECT x FROM t WHERE " + strings.Join(parts, " AND ")})
+	}
 	var wg sync.WaitGroup
 	start := make(chan struct{})
 	for gi := 0; gi < G; gi++ {
@@ -338,6 +358,21 @@ func c11FirstTouch(seed int64) []string {
 			defer wg.Done()
 			<-start
 			for round := 0; round < 6; round++ {
+				nb := nilBases[round]
+				for rep := 0; rep < 20; rep++ {
+					if (gi+rep)%2 == 0 {
+						sql, _, err := builder.Build(nb.q).ToSQL()
+						if err != nil || sql != nb.want {
+							report(fmt.Sprintf("goroutine %d: shared statement with unset filters renders as %q (err %v), expected %q", gi, sql, err, nb.want))
+						}
+					} else {
+						d := nb.q.Where(builder.N("own").Eq(builder.Int(gi)))
+						sql, _, err := builder.Build(d).ToSQL()
+						if exp := fmt.Sprintf("%s AND own = %d", nb.want, gi); err != nil || sql != exp {
+							report(fmt.Sprintf("goroutine %d: continuation of a shared statement with unset filters renders as %q (err %v), expected %q", gi, sql, err, exp))
+						}
+					}
+				}
 				// IN list with more arguments than any earlier rendering of this goroutine
 				k := 33 + 29*round + 3*gi + int(seed%7)
 				vals := make([]int, k)
